@@ -10,11 +10,12 @@ let dial_of = function
 let vk_of = function
   | "ok" -> VOk | "wrongid" -> VWrongId | "badtag" -> VBadTag | "badsig" -> VBadSig | "auth" -> VAuth
   | "invalid" -> VInvalid | "garbage" -> VGarbage | "peerclose" -> VPeerClose | "peerreset" -> VPeerReset
-  | "http4xx" -> VHttp4xx | "okfin" -> VOkFin | "okrst" -> VOkRst | _ -> failwith "vkind"
+  | "http4xx" -> VHttp4xx | "okfin" -> VOkFin | "okrst" -> VOkRst | "okbad" -> VOkBad
+  | _ -> failwith "vkind"
 let vk_s = function
   | VOk -> "ok" | VWrongId -> "wrongid" | VBadTag -> "badtag" | VBadSig -> "badsig" | VAuth -> "auth"
   | VInvalid -> "invalid" | VGarbage -> "garbage" | VPeerClose -> "peerclose" | VPeerReset -> "peerreset"
-  | VHttp4xx -> "http4xx" | VOkFin -> "okfin" | VOkRst -> "okrst"
+  | VHttp4xx -> "http4xx" | VOkFin -> "okfin" | VOkRst -> "okrst" | VOkBad -> "okbad"
 let verif_of s = match Stdlib.String.split_on_char ':' s with
   | [k; d] -> ((vk_of k, n_of_dec d), n_of_dec "0")
   | [k; d; v] -> ((vk_of k, n_of_dec d), n_of_dec v) | _ -> failwith "verif"
@@ -27,7 +28,8 @@ let control_of s = match Stdlib.String.split_on_char ':' s with
         | "soon" -> Soon
         | "drop" -> Drop (nat_of_int (int_of_string a))
         | "dropreset" -> DropReset (nat_of_int (int_of_string a))
-        | "close" -> Close | "shutdown" -> Shutdown | _ -> failwith "control") in
+        | "close" -> Close | "shutdown" -> Shutdown
+        | "badreply" -> BadReply (nat_of_int (int_of_string a)) | _ -> failwith "control") in
       (n_of_dec t, c)
   | _ -> failwith "control"
 let ints l = "[" ^ Stdlib.String.concat "," (sl (fun x -> string_of_int (int_of_nat x)) l) ^ "]"
@@ -40,7 +42,8 @@ let ev_json (t, e) =
         | Ensure w -> ("ensure", string_of_int (int_of_nat w)) | Cancel w -> ("cancel", string_of_int (int_of_nat w))
         | Zeroconf hs -> ("zeroconf", ints hs) | Soon -> ("soon", "0")
         | Drop c -> ("drop", string_of_int (int_of_nat c)) | DropReset c -> ("dropreset", string_of_int (int_of_nat c))
-        | Close -> ("close", "0") | Shutdown -> ("shutdown", "0")) in
+        | Close -> ("close", "0") | Shutdown -> ("shutdown", "0")
+        | BadReply v -> ("badreply", string_of_int (int_of_nat v))) in
       Printf.sprintf "[%s,\"control\",\"%s\",%s]" t k a
   | EvDial (cs, d) ->
       Printf.sprintf "[%s,\"dial\",%s,\"%s\"]" t (ints cs)
